@@ -58,3 +58,50 @@ Definition badw_C09 := badw_mon mon_C09.
 Definition badw_C12 (ts : list trace) : list nat :=
   flat_map (fun t => match mon_run_w (t_confs t) (mon_C12 (t_ordered t) (t_confs t)) (obs0 (t_confs t)) (t_evs t) with
                      | Some w => [w] | None => [] end) ts.
+
+(* ---- attribution of a violation to the known windows, per process NAME ------------------------------
+   A violation at an event about an instance of name n can only be explained by a window that the
+   sub-history of events concerning name n (plus the events that concern no particular name: Run,
+   shutdown procedure, API returns, registry lookups) went through before the violation. *)
+Definition ev_name (o : obs) (th : tid) (e : event) : option name :=
+  match e with
+  | ENewInst _ n | ERegAdd _ n | ESpawn _ n | ERegGet n _ | EDoneGet n _ | EStartChecked n _ | EStopChecked n _
+  | ERestartChecked n _ | ERestartStopped n => Some n
+  | EApiBegin (OpStart n) | EApiBegin (OpStop n) | EApiBegin (OpRestart n) => Some n
+  | EDepWait _ _ | EDepDone _ _ | ELookupMid _ => option_map (fun i => o_nm (oi_get o i)) (get th (o_th o))
+  | _ => option_map (fun i => o_nm (oi_get o i)) (ev_inst o th e)
+  end.
+
+Definition code_of_windows (l : list bool) : nat :=
+  fold_left (fun acc (b : bool) => 2 * acc + (if b then 1 else 0)) l 0.
+
+(* runs the full observer; [kept] accumulates (in reverse) the events seen so far together with their name *)
+Fixpoint mon_run_wn (cs : amap pconf) (m : obs -> tid * event -> bool) (o : obs)
+         (kept : list (option name * (tid * event))) (evs : list (tid * event)) : option nat :=
+  match evs with
+  | [] => None
+  | e :: r =>
+      let nm := ev_name o (fst e) (snd e) in
+      if m o e then mon_run_wn cs m (obs_step cs o e) ((nm, e) :: kept) r
+      else
+        let sub := match nm with
+                   | Some n => filter (fun p => match fst p with Some k => N.eqb k n | None => true end) kept
+                   | None => kept
+                   end in
+        (* the violating event itself may be the one that reveals the window (e.g. the late Terminating write) *)
+        Some (code_of_windows (windows_of (obs_step cs (fold_left (obs_step cs) (map snd (rev sub)) (obs0 cs)) e)))
+  end.
+
+Definition badwn_mon (m : amap pconf -> obs -> tid * event -> bool) (ts : list trace) : list nat :=
+  flat_map (fun t => match mon_run_wn (t_confs t) (m (t_confs t)) (obs0 (t_confs t)) [] (t_evs t) with
+                     | Some w => [w] | None => [] end) ts.
+Definition badwn_C01 := badwn_mon mon_C01.
+Definition badwn_C02 := badwn_mon mon_C02.
+Definition badwn_C03 := badwn_mon mon_C03.
+Definition badwn_C04 := badwn_mon mon_C04.
+Definition badwn_C05 := badwn_mon mon_C05.
+Definition badwn_C08 := badwn_mon mon_C08.
+Definition badwn_C09 := badwn_mon mon_C09.
+Definition badwn_C12 (ts : list trace) : list nat :=
+  flat_map (fun t => match mon_run_wn (t_confs t) (mon_C12 (t_ordered t) (t_confs t)) (obs0 (t_confs t)) [] (t_evs t) with
+                     | Some w => [w] | None => [] end) ts.
